@@ -445,6 +445,46 @@ def parser_phases(ctx):
     ctx.covered("clause order and phase flags of Parser::parse; shorthand window of parse_cond", n, distinct_keys=order + ["writers", "window"])
 
 
+def literal_key_analysis(dh):
+    """writes of the literal value `val` in Display for Expr: (bare writes that can collide with their reason, all bare
+    writes, delimited writes)"""
+    import re
+    bare, delimited, bad = [], [], []
+    for c in walk_exprs(dh):
+        if c["k"] != "MCall" or c["m"] not in ("write_str", "write_fmt", "push_str"):
+            continue
+        refs_val = any(x["k"] == "Path" and x.get("rk") == "Local" and x.get("name") == "val" for a in c["args"] for x in walk_exprs(a))
+        if not refs_val:
+            continue
+        if c["m"] == "write_fmt":
+            ts = [t for t, _ in fmt_templates(c)]
+            if ts and all(len(t) >= 4 and not t[0].isalnum() and t[0] == t[-1] and t[0] not in "{} " for t in ts):
+                delimited.append(c)
+                continue
+        bare.append(c)
+    for c in bare:
+        gs = [g for g in (guards_of(dh, c) or []) if g[0] == "if" and g[2] and g[1]["k"] != "LetE"]
+        why = "it is written unconditionally"
+        ok = False
+        if gs:
+            okd = []
+            for d_ in disjuncts(gs[-1][1]):
+                d_ = peel(d_, methods=False)
+                rv = peel(d_["recv"], methods=False) if d_["k"] == "MCall" else None
+                if d_["k"] == "Bin" and d_["op"] == "==" and any(x["k"] == "Lit" and x["lk"] == "str" and x["v"] and not x["v"][0].isalpha() and x["v"][0] not in "-(" for x in (peel(d_["l"]), peel(d_["r"]))):
+                    okd.append(True)
+                elif d_["k"] == "MCall" and d_["m"] == "is_ok" and rv["k"] == "MCall" and rv["m"] == "parse" and \
+                        re.search(r"Result<(f64|f32|i64|u64|i32|u32|usize|isize)\b", rv.get("ty", "")):
+                    okd.append(True)
+                else:
+                    okd.append(False)
+                    why = "it is written bare when `%s`" % render(d_)
+            ok = bool(okd) and all(okd)
+        if not ok:
+            bad.append((c, why))
+    return bad, bare, delimited
+
+
 NONE_TESTS = {"column_expr.%s.is_none()" % f for f in ("function", "field", "left", "right", "args", "arithmetic_op", "op", "logical_op")}
 
 
@@ -482,7 +522,13 @@ def literal_before_memo(ctx):
         ctx.covered("memo lookups of get_column_expr_value (none: nothing to protect)", 1, distinct_keys=["no-memo"])
         ctx.obligation(True)
         return
-    ok = memo_guarded or (lit_i is not None and lit_i < memo_i)
+    # alternatively the key text itself keeps literals apart from everything else (C15-R7): then the memo is safe
+    dh = ctx.prog.hir("<expr::Expr as core::fmt::Display>::fmt")
+    delimited_ok = False
+    if dh is not None:
+        bad, bare, delim = literal_key_analysis(dh)
+        delimited_ok = not bad and (bool(delim) or not bare) and bool(bare or delim)
+    ok = memo_guarded or (lit_i is not None and lit_i < memo_i) or delimited_ok
     ctx.obligation(ok)
     if not ok:
         ctx.violation("literal-before-memo", ctx.where(name, top[memo_i]),
@@ -490,7 +536,7 @@ def literal_before_memo(ctx):
                       "has the text of the column name, so `name = 'Name'` shares a memo with `name` wherever the map is shared "
                       "(select list, function arguments, ORDER BY keys)")
     ctx.covered("literal evaluation vs. text-keyed memo lookup in get_column_expr_value", 1, distinct_keys=["literal-before-memo"],
-                sample={"memo_stmt": memo_i, "literal_stmt": lit_i, "memo_guarded": memo_guarded})
+                sample={"memo_stmt": memo_i, "literal_stmt": lit_i, "memo_guarded": memo_guarded, "literals_delimited_in_key": delimited_ok})
 
 
 def wbuf_total(ctx):
